@@ -252,7 +252,7 @@ pub fn run_c09(tier: &str, seed: u64, workers: usize) -> i32 {
     pr.real_components = vec!["ethercrab::MainDevice::init and everything below it (SubDevice::new, EEPROM reads, DC configuration, mailbox SM configuration, INIT->PRE-OP) — real code", "PDU loop — real code"];
     pr.stub_components = vec!["EtherCAT segment: /verif/sim/src/esc reference model (registers, SII, AL state machine, mailbox/CoE)", "clock, executor, NIC"];
     pr.assumptions = vec!["chain topology, fault-free wire; device-side lag only in the dev-lag batch".into()];
-    let (runs, wall) = if tier == "thorough" { (400_000u64, 500u64) } else { (3_000u64, 40u64) };
+    let (runs, wall) = if tier == "thorough" { (3_000_000u64, 500u64) } else { (40_000u64, 40u64) };
     pr.replay_witnesses("init", &case_clean);
     pr.batch("init", runs, wall, "one run = a drawn network of 0..capacity+2 devices (capacity 4, 8 or 16) with drawn EEPROMs, previous station addresses, mailboxes, DC flags, 4/8 byte SII, assigned to 1..3 groups; non-trivial = at least two devices; distinct = distinct hash of the device set and frame count", &case_clean);
     pr.replay_witnesses("init-dev-lag", &case_lag);
